@@ -21,11 +21,32 @@ var inflAssumptions = []string{
 }
 
 var props = map[string]*propDef{
+	"C06": {
+		level: "exploration", engine: "gensim",
+		rule:    "each simulation draws a module (declaration kinds x tag placements at global/package/declaration level x generator names that are prefixes of one another), scripted generators and 1-3 runs under asc/desc/rotated/shuffled map orders; the callback trace is compared with the enabled set computed from the spec by the rule of the property text; distinct = distinct (package count, op-kind sequence); non-trivial = at least one package executed",
+		sims:    map[string]int{"quick": 150, "thorough": 20000},
+		budget:  map[string]time.Duration{"quick": 40 * time.Second, "thorough": 15 * time.Minute},
+		explore: func(c *sim.CheckCtx) { c.Explore("c06", sim.SimC06) },
+	},
+	"C07": {
+		level: "exploration", engine: "gensim",
+		rule:    "each simulation is a history of 3-7 ops (runs with varying generator subsets, All on/off, Force; source edits; planted stale outputs and look-alike files; broken go.mod; runs with generator errors, injected I/O errors or a SIGKILL at a random event) over a world full of files gengo must not touch; the whole tree is snapshotted before and after every run; distinct = distinct (package count, op-kind sequence incl. fault kinds)",
+		sims:    map[string]int{"quick": 100, "thorough": 12000},
+		budget:  map[string]time.Duration{"quick": 45 * time.Second, "thorough": 15 * time.Minute},
+		explore: func(c *sim.CheckCtx) { c.Explore("c07", sim.SimC07) },
+	},
+	"C08": {
+		level: "exploration", engine: "gensim",
+		rule:    "each simulation is a history of 4-9 ops over {edit/add/delete a file, delete or corrupt gengo.sum (8 kinds), plant an unhashable entry, run, run with Force, run on a subset, failing run, killed run, external edit between load and execute, converge} against a reference model of the cache; distinct = distinct (package count, op-kind sequence incl. fault kinds)",
+		sims:    map[string]int{"quick": 100, "thorough": 12000},
+		budget:  map[string]time.Duration{"quick": 45 * time.Second, "thorough": 15 * time.Minute},
+		explore: func(c *sim.CheckCtx) { c.Explore("c08", sim.SimC08) },
+	},
 	"C20": {
 		level: "exploration", engine: "inflsim",
-		rule: "each simulation is a batch of 12 histories (2-4 client goroutines, 2-6 calls each, fresh tokens so that cache misses happen under contention) executed in one fresh worker under a seeded cooperative scheduler, compared call by call with a sequential reference run in another fresh process; every 8th batch is also run 8x with real goroutines under the race detector; distinct = distinct (client/call shape, schedule seed class) of histories; distinct_traces counts distinct schedules (goroutine id lists)",
-		sims:   map[string]int{"quick": 300, "thorough": 200000},
-		budget: map[string]time.Duration{"quick": 25 * time.Second, "thorough": 15 * time.Minute},
+		rule:    "each simulation is a batch of 12 histories (2-4 client goroutines, 2-6 calls each, fresh tokens so that cache misses happen under contention) executed in one fresh worker under a seeded cooperative scheduler, compared call by call with a sequential reference run in another fresh process; every 8th batch is also run 8x with real goroutines under the race detector; distinct = distinct (client/call shape, schedule seed class) of histories; distinct_traces counts distinct schedules (goroutine id lists)",
+		sims:    map[string]int{"quick": 300, "thorough": 200000},
+		budget:  map[string]time.Duration{"quick": 25 * time.Second, "thorough": 15 * time.Minute},
 		explore: func(c *sim.CheckCtx) { c.Explore("c20", sim.SimC20) },
 	},
 	"C04": {
